@@ -354,6 +354,19 @@ func (c *Ctx) LocksetReport(rule string, li *LockInfo, exceptions map[string]str
 		c.Bad(rule, construct, fpos(f), fmt.Sprintf("lock not held: %s; and the function is an entry point (%s)", why, how))
 	}
 
+	// a function must not release a lock it does not hold itself: a requires-held helper that
+	// unlocks (and re-locks) the caller's mutex breaks the atomicity of the caller's check-then-act
+	for _, f := range li.funcs {
+		for _, b := range f.Blocks {
+			for _, in := range b.Instrs {
+				if li.lockOp(in) == -1 && li.HeldAt(in) <= 0 {
+					c.Bad(rule, FuncName(f)+" :: releases "+li.Spec.Struct+"."+li.Spec.Mutex+" which it did not acquire", in.Pos(),
+						"the caller's critical section is split: guards evaluated before this call no longer hold after it")
+				}
+			}
+		}
+	}
+
 	for name := range exceptions {
 		if !usedExc[name] {
 			// an exception that no longer matches anything is stale but harmless; say so without failing
